@@ -1,4 +1,4 @@
-(* C06, round trip of `func` declarations and `on` handlers (FormatParseFuncProofs.v), against
+(* C06, round trip of `func` declarations and `on` handlers at parseProgram's loop (FormatParseFuncProofs.v), against
    Parser.parse_func / parse_event_handler / program_loop = parser.go parseFunc, parseEventHandler,
    parseProgram.  Property theorems only.
 
@@ -56,7 +56,34 @@ Theorem C06_roundtrip_func_decl_partial :
 Proof. exact func_rt. Qed.
 Print Assumptions C06_roundtrip_func_decl_partial.
 
-(* parseProgram's loop over a program of statements and func declarations, for ANY function table F
+(* one event handler at top level: on name [param:type ...], body.  Hypotheses (all reported as errors by
+   parseEventHandler / addEventParamsToScope otherwise): the event exists, no handler for it yet, the
+   parameters are none or exactly the event's, with the event's types *)
+Theorem C06_roundtrip_on_handler_partial :
+  forall (B : benv), (forall s t n, b_tyerr B s t n = false) ->
+  forall (fx : fixes) (F : list (str * finfo)) (f : nat) (s : pst) (n : str) (ps : list (str * fty))
+         (body : list fstmt) (r : list token) (G : ctx) (ex : list ty) (G1 : ctx),
+  ident_text n = true -> forallb param_okb ps = true ->
+  lookup_ev n (b_events B) = Some ex -> (ps = [] \/ map param_ty ps = map Some ex) -> mem_str n (hds s) = false ->
+  declare_all (tabs_of B F) (map fst ps) ([] :: G) = Some G1 ->
+  boks B F hd_fr G1 false false body -> body_trees false body <> [] ->
+  S (szb false body) <= f ->
+  ST F s (toks_of_pieces (fmt_stmt fx 0 (FmtAst.SOn n ps [] body [])) ++ mk T_NL :: r) G top_fr ->
+  is_ws (look0 (skip1 r)) = false ->
+  exists s', parse_event_handler B f s = Ok (Some (stmt_tree (FmtAst.SOn n ps [] body []))) s' /\
+             at_toks s' (skip1 r) [] /\ peek_ok s' (skip1 r) /\ kb s' = (bodies s, n :: hds s).
+Proof. exact on_rt. Qed.
+Print Assumptions C06_roundtrip_on_handler_partial.
+
+(* where the formatter inserts no blank line (nlAfter empty: an already formatted program,
+   C07_blank_line_logic_stable) the tree is the squeezed tree of C06_program.v *)
+Theorem C06_no_blank_line_inserted_same_tree :
+  forall (l : list fstmt) (i : nat) (e : bool), prog_trees [] i e l = body_trees e l.
+Proof. exact prog_trees_plain. Qed.
+Print Assumptions C06_no_blank_line_inserted_same_tree.
+
+(* parseProgram's loop over a program of statements, func declarations and event handlers - every
+   statement form, comment-free - for ANY function table F
    (the table is fixed before the loop starts) and any set nl of indices after which the formatter
    writes a blank line *)
 Theorem C06_roundtrip_program_loop_funcs_partial :
